@@ -396,29 +396,35 @@ Record c4_fnode := mkC4fnode {
   c4f_parent : N                 (* /Parent, 0 = absent; an id outside the graph is not a dictionary *)
 }.
 
+(* the /Parent entry of a node as the code sees it now: traverseField rewrites it ("correcting") and the rewritten
+   value is what FT inheritance of the nodes below reads afterwards *)
+Definition c4_fparent (ov : list (N * N)) (n : N) (nd : c4_fnode) : N :=
+  match c4_find ov n with Some p => p | None => c4f_parent nd end.
+
 (* FormNode::inherited("/FT"):  while (node.Parent() && (++depth < 10 || seen.add(node))) { node = node.Parent();
    if (node["/FT"]) return it; }   - loop detection only starts at depth 10 *)
-Fixpoint c4_finherit (fuel : nat) (g : list (N * c4_fnode)) (node : N) (depth : nat) (seen : list N) : option bool :=
+Fixpoint c4_finherit (fuel : nat) (g : list (N * c4_fnode)) (ov : list (N * N)) (node : N) (depth : nat) (seen : list N) : option bool :=
   match fuel with
   | O => None
   | S f =>
     match c4_find g node with
     | None => Some false
     | Some nd =>
-      match (if c4f_parent nd =? 0 then None else c4_find g (c4f_parent nd)) with
+      let par := c4_fparent ov node nd in
+      match (if par =? 0 then None else c4_find g par) with
       | None => Some false                                     (* no (dictionary) parent *)
       | Some pd =>
         let depth := S depth in
         let '(ok, seen) := if Nat.ltb depth 10 then (true, seen) else c4_add node seen in
         if negb ok then Some false
         else if c4f_FT pd then Some true
-        else c4_finherit f g (c4f_parent nd) depth seen
+        else c4_finherit f g ov par depth seen
       end
     end
   end.
 
-Definition c4_fhasFT (g : list (N * c4_fnode)) (n : N) (nd : c4_fnode) : bool :=
-  c4f_FT nd || match c4_finherit (length g + 11) g n 0 [] with Some b => b | None => false end.
+Definition c4_fhasFT (g : list (N * c4_fnode)) (ov : list (N * N)) (n : N) (nd : c4_fnode) : bool :=
+  c4f_FT nd || match c4_finherit (length g + 11) g ov n 0 [] with Some b => b | None => false end.
 
 Record c4_fst := mkC4fst {
   c4fs_fields : list N;    (* keys of fields_ *)
@@ -431,9 +437,10 @@ Record c4_fst := mkC4fst {
   c4fs_wparent : N;        (* "encountered invalid /Parent entry ...; correcting" *)
   c4fs_wkind : N;          (* neither field nor annotation / non-dictionary / direct object *)
   c4fs_exp : list N;       (* fields whose /Kids were iterated *)
-  c4fs_maxdepth : nat
+  c4fs_maxdepth : nat;
+  c4fs_par : list (N * N)  (* /Parent entries rewritten by "encountered invalid /Parent entry ...; correcting" *)
 }.
-Definition c4_fst0 : c4_fst := mkC4fst [] [] [] [] 0 0 0 0 0 [] 0.
+Definition c4_fst0 : c4_fst := mkC4fst [] [] [] [] 0 0 0 0 0 [] 0 [].
 
 Definition c4_fkids (g : list (N * c4_fnode)) (n : N) : list N :=
   match (if n =? 0 then None else c4_find g n) with
@@ -447,11 +454,11 @@ Fixpoint c4_ftrav (fuel : nat) (g : list (N * c4_fnode)) (field parent : N) (dep
   | O => (false, st)
   | S f =>
     let st := mkC4fst (c4fs_fields st) (c4fs_ann st) (c4fs_bad st) (c4fs_unnamed st) (c4fs_calls st + 1) (c4fs_wloop st)
-                      (c4fs_wtwo st) (c4fs_wparent st) (c4fs_wkind st) (c4fs_exp st) (c4fs_maxdepth st) in
+                      (c4fs_wtwo st) (c4fs_wparent st) (c4fs_wkind st) (c4fs_exp st) (c4fs_maxdepth st) (c4fs_par st) in
     let wloop st := mkC4fst (c4fs_fields st) (c4fs_ann st) (c4fs_bad st) (c4fs_unnamed st) (c4fs_calls st) (c4fs_wloop st + 1)
-                      (c4fs_wtwo st) (c4fs_wparent st) (c4fs_wkind st) (c4fs_exp st) (c4fs_maxdepth st) in
+                      (c4fs_wtwo st) (c4fs_wparent st) (c4fs_wkind st) (c4fs_exp st) (c4fs_maxdepth st) (c4fs_par st) in
     let wkind st := mkC4fst (c4fs_fields st) (c4fs_ann st) (c4fs_bad st) (c4fs_unnamed st) (c4fs_calls st) (c4fs_wloop st)
-                      (c4fs_wtwo st) (c4fs_wparent st) (c4fs_wkind st + 1) (c4fs_exp st) (c4fs_maxdepth st) in
+                      (c4fs_wtwo st) (c4fs_wparent st) (c4fs_wkind st + 1) (c4fs_exp st) (c4fs_maxdepth st) (c4fs_par st) in
     if Nat.ltb 100 depth then (false, st)
     else if field =? 0 then (false, wkind st)                                  (* direct object *)
     else if field =? parent then (false, wloop st)
@@ -461,12 +468,12 @@ Fixpoint c4_ftrav (fuel : nat) (g : list (N * c4_fnode)) (field parent : N) (dep
       let bad := if c4_mem field (c4fs_unnamed st) then (if c4_mem field (c4fs_bad st) then c4fs_bad st else field :: c4fs_bad st)
                  else c4fs_bad st in
       let st := mkC4fst (c4fs_fields st) (c4fs_ann st) bad (c4fs_unnamed st) (c4fs_calls st) (c4fs_wloop st)
-                        (c4fs_wtwo st) (c4fs_wparent st) (c4fs_wkind st) (c4fs_exp st) (Nat.max (c4fs_maxdepth st) depth) in
+                        (c4fs_wtwo st) (c4fs_wparent st) (c4fs_wkind st) (c4fs_exp st) (Nat.max (c4fs_maxdepth st) depth) (c4fs_par st) in
       if c4_mem field (c4fs_fields st) || c4_mem field (c4fs_ann st) || c4_mem field (c4fs_bad st)
       then (false, wloop st)
       else
         let haskids := match c4f_kids nd with Some _ => true | None => false end in
-        let is_field := c4f_T nd || haskids || c4_fhasFT g field nd in
+        let is_field := c4f_T nd || haskids || c4_fhasFT g (c4fs_par st) field nd in
         let is_annot := negb haskids && c4f_wid nd in
         if negb is_field && negb is_annot then (false, wkind st)
         else
@@ -475,37 +482,39 @@ Fixpoint c4_ftrav (fuel : nat) (g : list (N * c4_fnode)) (field parent : N) (dep
                     then let our := if is_field then field else parent in
                          mkC4fst (if c4_mem our (c4fs_fields st) then c4fs_fields st else our :: c4fs_fields st)
                                  (field :: c4fs_ann st) (c4fs_bad st) (c4fs_unnamed st) (c4fs_calls st) (c4fs_wloop st)
-                                 (c4fs_wtwo st) (c4fs_wparent st) (c4fs_wkind st) (c4fs_exp st) (c4fs_maxdepth st)
+                                 (c4fs_wtwo st) (c4fs_wparent st) (c4fs_wkind st) (c4fs_exp st) (c4fs_maxdepth st) (c4fs_par st)
                     else st in
           if negb is_field then (true, st)
           else
             let pcheck :=    (* 0 = go on, 1 = two parents (return true), 2 = loop (return false), 3 = corrected *)
-              if (match depth with O => true | _ => false end) || (c4f_parent nd =? parent) then 0%nat
-              else if c4_mem field (c4_fkids g (c4f_parent nd)) then 1%nat
-              else if c4_mem parent (c4_fkids g (c4f_parent nd)) then 2%nat
+              let par := c4_fparent (c4fs_par st) field nd in
+              if (match depth with O => true | _ => false end) || (par =? parent) then 0%nat
+              else if c4_mem field (c4_fkids g par) then 1%nat
+              else if c4_mem parent (c4_fkids g par) then 2%nat
               else 3%nat in
             match pcheck with
             | 1%nat => (true, mkC4fst (c4fs_fields st) (c4fs_ann st) (c4fs_bad st) (c4fs_unnamed st) (c4fs_calls st) (c4fs_wloop st)
-                                      (c4fs_wtwo st + 1) (c4fs_wparent st) (c4fs_wkind st) (c4fs_exp st) (c4fs_maxdepth st))
+                                      (c4fs_wtwo st + 1) (c4fs_wparent st) (c4fs_wkind st) (c4fs_exp st) (c4fs_maxdepth st) (c4fs_par st))
             | 2%nat => (false, wloop st)
             | pc =>
               let st := match pc with
                         | 3%nat => mkC4fst (c4fs_fields st) (c4fs_ann st) (c4fs_bad st) (c4fs_unnamed st) (c4fs_calls st) (c4fs_wloop st)
                                            (c4fs_wtwo st) (c4fs_wparent st + 1) (c4fs_wkind st) (c4fs_exp st) (c4fs_maxdepth st)
+                                           ((field, parent) :: c4fs_par st)          (* field.replaceKey("/Parent", parent) *)
                         | _ => st
                         end in
               let st := if c4f_T nd
                         then mkC4fst (if c4_mem field (c4fs_fields st) then c4fs_fields st else field :: c4fs_fields st)
                                      (c4fs_ann st) (c4fs_bad st) (c4fs_unnamed st) (c4fs_calls st) (c4fs_wloop st)
-                                     (c4fs_wtwo st) (c4fs_wparent st) (c4fs_wkind st) (c4fs_exp st) (c4fs_maxdepth st)
+                                     (c4fs_wtwo st) (c4fs_wparent st) (c4fs_wkind st) (c4fs_exp st) (c4fs_maxdepth st) (c4fs_par st)
                         else if negb is_annot
                         then mkC4fst (c4fs_fields st) (c4fs_ann st) (c4fs_bad st)
                                      (if c4_mem field (c4fs_unnamed st) then c4fs_unnamed st else field :: c4fs_unnamed st)
                                      (c4fs_calls st) (c4fs_wloop st)
-                                     (c4fs_wtwo st) (c4fs_wparent st) (c4fs_wkind st) (c4fs_exp st) (c4fs_maxdepth st)
+                                     (c4fs_wtwo st) (c4fs_wparent st) (c4fs_wkind st) (c4fs_exp st) (c4fs_maxdepth st) (c4fs_par st)
                         else st in
               let st := mkC4fst (c4fs_fields st) (c4fs_ann st) (c4fs_bad st) (c4fs_unnamed st) (c4fs_calls st) (c4fs_wloop st)
-                                (c4fs_wtwo st) (c4fs_wparent st) (c4fs_wkind st) (field :: c4fs_exp st) (c4fs_maxdepth st) in
+                                (c4fs_wtwo st) (c4fs_wparent st) (c4fs_wkind st) (field :: c4fs_exp st) (c4fs_maxdepth st) (c4fs_par st) in
               (true,
                fold_left (fun st kid =>
                             if c4_mem kid (c4fs_bad st) then st
@@ -513,7 +522,7 @@ Fixpoint c4_ftrav (fuel : nat) (g : list (N * c4_fnode)) (field parent : N) (dep
                                  if r then st'
                                  else mkC4fst (c4fs_fields st') (c4fs_ann st') (if c4_mem kid (c4fs_bad st') then c4fs_bad st' else kid :: c4fs_bad st')
                                               (c4fs_unnamed st') (c4fs_calls st') (c4fs_wloop st')
-                                              (c4fs_wtwo st') (c4fs_wparent st') (c4fs_wkind st') (c4fs_exp st') (c4fs_maxdepth st'))
+                                              (c4fs_wtwo st') (c4fs_wparent st') (c4fs_wkind st') (c4fs_exp st') (c4fs_maxdepth st') (c4fs_par st'))
                          (match c4f_kids nd with Some l => l | None => [] end) st)
             end
     end
